@@ -166,6 +166,134 @@ def operand_shape(t):
     return ops
 
 
+def shape_for(target, t):
+    """operand shape used in violation signatures (numbers dropped for MIPS, where registers are numbers too)."""
+    if target == "mips":
+        ops = t.split(" ", 1)[1] if " " in t else ""
+        return re.sub(r"-?(0x)?[0-9a-f]+\b", "N", ops)
+    return operand_shape(t)
+
+
+# ---------------------------------------------------------------- MIPS (llvm-mc / llvm-objdump as the standard assembler)
+LLVM_MC = "llvm-mc-14"
+LLVM_OBJDUMP = "llvm-objdump-14"
+MIPS_ATTR = "+mips32r2,+dsp,+dspr2"
+
+
+def mips_tools_present():
+    import shutil
+    return bool(shutil.which(LLVM_MC) and shutil.which(LLVM_OBJDUMP))
+
+
+def _mips_norm(insns, base, end):
+    out = []
+    for a, t in insns:
+        if t.startswith("<sym>") or not (base <= a < end):
+            continue
+        t = re.sub(r"\s*<[^>]*>", "", t).strip()      # symbolisation of immediates and branch targets
+        # orc encodes the listing's `nop` as `or $at,$at,$zero` ("what gnu as does", orcmips.c); llvm-mc as `sll $zero,$zero,0`:
+        # two encodings of the same no-operation, as with the x86 padding forms
+        if t in ("move $1, $1", "or $1, $1, $zero", "sll $zero, $zero, 0"):
+            t = "nop"
+        out.append(t)
+    # trailing alignment padding of the last function of a batch
+    while out and out[-1] == "nop":
+        out.pop()
+    return out
+
+
+def compare_batch_mips(prefix):
+    """Same contract as compare_batch for the batches of the mips back end: the listing is assembled by llvm-mc (mipsel, DSPr2),
+    the emitted bytes are wrapped into an object through .byte lines; both are disassembled by llvm-objdump and compared
+    instruction by instruction (branch displacements are printed relative, so no address normalisation is needed)."""
+    idx = [json.loads(l) for l in open(prefix + ".json")]
+    data = open(prefix + ".bin", "rb").read()
+    with open(prefix + ".bytes.s", "w") as f:
+        f.write(".text\n.set noreorder\n")
+        for i in range(0, len(data), 16):
+            f.write(".byte " + ",".join(str(b) for b in data[i:i + 16]) + "\n")
+    mc = [LLVM_MC, "--arch=mipsel", "-mattr=" + MIPS_ATTR, "-filetype=obj"]
+    rc, out, err = run(mc + [prefix + ".bytes.s", "-o", prefix + ".bytes.o"])
+    if rc != 0:
+        return [], ["llvm-mc failed on the byte image of %s: %s" % (prefix, err[:300])]
+    rc, out, err = run([LLVM_OBJDUMP, "-d", "--no-show-raw-insn", "--mattr=" + MIPS_ATTR, prefix + ".bytes.o"])
+    if rc != 0:
+        return [], ["llvm-objdump failed on %s.bytes.o: %s" % (prefix, err[:300])]
+    code = parse_objdump(out)
+    rc, out2, err2 = run(mc + [prefix + ".s", "-o", prefix + ".o"])
+    as_errors = {}
+    if rc != 0:
+        lines = open(prefix + ".s").read().splitlines()
+        cur = None
+        owner = {}
+        for i, l in enumerate(lines, 1):
+            if l.startswith("# ---- "):
+                cur = l[7:].strip()
+            owner[i] = cur
+        for el in err2.splitlines():
+            m = re.match(r".*?:(\d+):\d+: error: (.*)$", el)
+            if m:
+                fn = owner.get(int(m.group(1)))
+                as_errors.setdefault(fn, []).append((lines[int(m.group(1)) - 1].strip(), m.group(2)))
+        bad = set(as_errors)
+        keep = []
+        skip = False
+        for l in lines:
+            if l.startswith("# ---- "):
+                skip = l[7:].strip() in bad
+            if not skip:
+                keep.append(l)
+        with open(prefix + ".ok.s", "w") as f:
+            f.write("\n".join(keep) + "\n")
+        rc, out2, err3 = run(mc + [prefix + ".ok.s", "-o", prefix + ".o"])
+        if rc != 0:
+            return [], ["llvm-mc failed twice on %s: %s" % (prefix, err3[:500])]
+    rc, out3, err3 = run([LLVM_OBJDUMP, "-d", "--no-show-raw-insn", "--mattr=" + MIPS_ATTR, prefix + ".o"])
+    if rc != 0:
+        return [], ["llvm-objdump -d failed: %s" % err3[:300]]
+    lst = parse_objdump(out3)
+    syms = [(a, t[5:]) for a, t in lst if t.startswith("<sym>") and not t[5:].startswith((".L", "$"))]
+    ends = {}
+    last_addr = max([a for a, _ in lst] + [0]) + 4
+    for i, (a, n) in enumerate(syms):
+        ends[n] = (a, syms[i + 1][0] if i + 1 < len(syms) else last_addr)
+    results = []
+    for e in idx:
+        name = e["name"]
+        r = {"name": name, "target": e["target"], "flags": e["flags"], "case": e["case"], "program": e["program"], "bits": 32}
+        cn = _mips_norm(code, e["offset"], e["offset"] + e["size"])
+        r["code_insns"] = len(cn)
+        r["code_norm"] = cn
+        if name in as_errors:
+            r["equal"] = False
+            r["kind"] = "as-rejects-listing"
+            r["listing_line"], r["as_message"] = as_errors[name][0]
+            results.append(r)
+            continue
+        if name not in ends:
+            r["equal"] = False
+            r["kind"] = "symbol-missing"
+            results.append(r)
+            continue
+        ln = _mips_norm(lst, ends[name][0], ends[name][1])
+        # alignment padding between functions belongs to the listing side only
+        while len(ln) > len(cn) and ln[-1] == "nop":
+            ln.pop()
+        if ln == cn:
+            r["equal"] = True
+        else:
+            r["equal"] = False
+            r["kind"] = "sequence"
+            k = 0
+            while k < len(ln) and k < len(cn) and ln[k] == cn[k]:
+                k += 1
+            r["index"] = k
+            r["listing_insn"] = ln[k] if k < len(ln) else "<end>"
+            r["code_insn"] = cn[k] if k < len(cn) else "<end>"
+        results.append(r)
+    return results, []
+
+
 # ---------------------------------------------------------------- C11
 def arch_lines(target, flags, is32):
     SSE = {1: ".sse2", 2: ".sse3", 4: ".ssse3", 8: ".sse4.1", 16: ".sse4.2"}
